@@ -1,26 +1,66 @@
-import json, os, shutil, subprocess, sys
+"""./check: dispatch to the engine variant that serves the property, then run the property's bounded native post-checks,
+merge their outcome into /verif/evidence/<id>.json and into the exit code."""
+import json, os, re, subprocess, sys, time
 V = os.path.dirname(os.path.dirname(os.path.abspath(__file__)))
 groups = json.load(open(os.path.join(V, "tools", "groups.json")))
+posts = json.load(open(os.path.join(V, "tools", "post_checks.json")))
 args = sys.argv[1:]
 prop = next((a for a in args if not a.startswith("-")), None)
 g = groups.get(prop, "main")
 if "--tier" not in args and os.environ.get("VERIF_TIER"):
     args += ["--tier", os.environ["VERIF_TIER"]]
-if g == "main" or "--replay" in args:
-    os.chdir(V)
-    sys.path.insert(0, V)
-    from pyvc.driver import main
-    sys.argv = ["check"] + args
-    main()
-else:
-    gd = os.path.join(V, "groups", g)
-    p = subprocess.run(["python3-vt", "-c", "import sys; sys.path.insert(0,'.'); from pyvc.driver import main; main()"] + args, cwd=gd)
-    ev = os.path.join(gd, "evidence", "%s.json" % prop)
-    if "--no-evidence" not in args and "--replay" not in args and os.path.exists(ev):
-        e = json.load(open(ev))
-        cov = e.setdefault("coverage", {})
-        cov["checker_cmd"] = "cd /verif && ./check %s --tier %s   (engine variant /verif/groups/%s/pyvc)" % (prop, e.get("tier", "quick"), g)
-        cov.setdefault("trusted_base", []).append("engine variant: /verif/groups/%s/pyvc (fork of /verif/pyvc in which this group of contracts was developed; see DESIGN 10.5 and groups/%s/NOTES_%s.md)" % (g, g, g))
-        os.makedirs(os.path.join(V, "evidence"), exist_ok=True)
-        json.dump(e, open(os.path.join(V, "evidence", "%s.json" % prop), "w"), indent=1)
-    sys.exit(p.returncode)
+tier = args[args.index("--tier") + 1] if "--tier" in args else "quick"
+repo = args[args.index("--repo") + 1] if "--repo" in args else "/repo"
+seed = int(os.environ.get("VERIF_SEED", "0"))
+t0 = time.time()
+if "--replay" in args:
+    gd = V
+    cmd = ["python3-vt", "-c", "import sys; sys.path.insert(0,'.'); from pyvc.driver import main; main()"] + args
+    sys.exit(subprocess.run(cmd, cwd=V).returncode)
+gd = V if g == "main" else os.path.join(V, "groups", g)
+p = subprocess.run(["python3-vt", "-c", "import sys; sys.path.insert(0,'.'); from pyvc.driver import main; main()"] + args, cwd=gd)
+rc = p.returncode
+# ---- bounded native post-checks (skipped for partial runs)
+bounded = []
+violations = []
+if "--only" not in args:
+    for pc in posts.get(prop, []):
+        n = pc[tier if tier in pc else "quick"]
+        try:
+            q = subprocess.run(["/venv/bin/python", os.path.join(V, pc["script"]), "--repo", repo, "--n", str(n), "--seed", str(seed)], capture_output=True, text=True, timeout=3000)
+            lines = [l for l in q.stdout.strip().splitlines() if l.startswith("{")]
+            r = json.loads(lines[-1]) if lines else dict(error=(q.stderr or q.stdout)[-400:])
+        except Exception as e:
+            r = dict(error=repr(e))
+        fails = r.get("failures", [])
+        if isinstance(fails, dict):
+            crash = fails.get("CRASH", [])
+            fails = fails.get(pc["key"], []) + crash
+        bounded.append(dict(script=pc["script"], evaluations=r.get("evaluations"), distinct=r.get("distinct"), failures=len(fails), stats=r.get("stats"), error=r.get("error"),
+                            bound="%s random cases, seed %d" % (n, seed)))
+        if fails:
+            os.makedirs(os.path.join(V, "replays", prop), exist_ok=True)
+            rp = os.path.join(V, "replays", prop, "bounded_%s.json" % os.path.basename(pc["script"])[:-3])
+            json.dump(dict(property=prop, obligation="bounded-standin:%s" % pc["script"], kind="bounded-standin", failing_input=fails[:3], native=dict(confirmed=True),
+                           rerun="/venv/bin/python %s --repo %s --n %s --seed %s" % (os.path.join(V, pc["script"]), repo, n, seed)), open(rp, "w"), indent=1, default=str)
+            violations.append("VIOLATION property=%s replay=%s" % (prop, rp))
+for v in violations:
+    print(v)
+if violations and rc in (0, 2):
+    rc = 1
+# ---- evidence
+ev_src = os.path.join(gd, "evidence", "%s.json" % prop)
+if "--no-evidence" not in args and os.path.exists(ev_src):
+    e = json.load(open(ev_src))
+    cov = e.setdefault("coverage", {})
+    if g != "main":
+        cov["checker_cmd"] = "cd /verif && ./check %s --tier %s   (engine variant /verif/groups/%s/pyvc)" % (prop, e.get("tier", tier), g)
+        cov.setdefault("trusted_base", []).append("engine variant: /verif/groups/%s/pyvc (fork of /verif/pyvc in which this group of contracts was developed; DESIGN 10.5, groups/%s/NOTES_%s.md)" % (g, g, g))
+    if bounded:
+        cov["bounded_native_post_checks"] = bounded
+        e.setdefault("assumptions", []).append("BOUNDED (not proved): native scenario / unit stand-ins on the real code: " + "; ".join("%s: %s cases" % (b["script"], b["evaluations"]) for b in bounded))
+    e["violations"] = int(e.get("violations", 0)) + len(violations)
+    e["wall_s"] = round(time.time() - t0, 2)
+    os.makedirs(os.path.join(V, "evidence"), exist_ok=True)
+    json.dump(e, open(os.path.join(V, "evidence", "%s.json" % prop), "w"), indent=1)
+sys.exit(rc)
